@@ -293,6 +293,12 @@ class Gen:
         self.faults = []
         body = bytearray()
         tag = 0x8002 if ((nsessions or empty_area) and rc == 0) else 0x8001
+        if rc != 0 and rng.random() < 0.35:
+            # a failed response is header-only whatever its tag says: TPM_ST_SESSIONS, the TPM 1.2 style tag 0x00C4 of
+            # the TPM_RC_BAD_TAG reply (first byte 0x00), any other structure tag
+            tag = rng.choice([0x8002] * 12 + [0x00C4] * 12 + [v for v in self.valid_values("TPM_ST") if 0 <= v < 65536])
+            if tag == 0x00C4 and rng.random() < 0.7:
+                rc = 0x1E
         if rc == 0:
             self.gen_type(self.rsp_h[cc], body)
             params = bytearray()
